@@ -248,7 +248,7 @@ func (t *tr) fieldTypes(fl *ast.FieldList) string {
 
 func (t *tr) optExpr(x ast.Expr) string {
 	if x == nil {
-		return "Expr.none"
+		return "Expr.absent"
 	}
 	return t.expr(x)
 }
@@ -434,7 +434,7 @@ func (t *tr) stmt(x ast.Stmt) []string {
 		rng := t.expr(x.X)
 		t.push()
 		defer t.pop()
-		kv := [2]string{"Expr.none", "Expr.none"}
+		kv := [2]string{"Expr.absent", "Expr.absent"}
 		for i, e := range []ast.Expr{x.Key, x.Value} {
 			if e == nil {
 				continue
@@ -469,7 +469,7 @@ func (t *tr) stmt(x ast.Stmt) []string {
 		if x.Init != nil || !ok || ta.Type != nil {
 			return one(t.opaqueS(x))
 		}
-		s, b := t.expr(ta.X), "Expr.none"
+		s, b := t.expr(ta.X), "Expr.absent"
 		if bind != nil {
 			b = "(ident " + q(t.declare(bind.Name)) + ")"
 		}
